@@ -49,7 +49,7 @@ def run(chk):
             replay_stream = "mset" if "sets" in json.load(open(chk.replay)).get("case", {}) else "grid"
         except Exception:  # noqa
             replay_stream = "grid"
-    n = 1200 if chk.tier == "quick" else 12000
+    n = 800 if chk.tier == "quick" else 12000
     # corpus: minimised witnesses (fixed defect D-GRID0, one failing query per mutation tried) run first
     corpus = os.path.join(vf.ROOT, "corpus", "C17", "witnesses.json")
     if not chk.replay and os.path.exists(corpus):
